@@ -131,6 +131,16 @@ PROPS = {
              'cases': {'quick': 5000, 'thorough': 200000}, 'shards': {'quick': 1, 'thorough': 2}},
         ],
     },
+    'C16': {
+        'rule': 'point clouds C (+) delta_i, |delta_i| <= 0.5, n in 0..50, centre C anywhere (rotation strata incl. angle near pi, translations <= 1e3), permutations, left / right translations, identical points, the four routines; non-trivial: n >= 3, spread >= 1e-2, centre rotation >= 0.1',
+        'assumptions': ['residual and distances are measured on the reference model (certified logarithm); tolerances: residual 2.02*sqrt(eps) (the routines stop at |step|^2 < eps), equivariance / order 20*sqrt(eps), scaled by |Ad_h| for right translations, plus 2^12 u * coordinates',
+                        'the weighted routine average() is only required to be valid, to return identical points, to raise on the empty set and to be left-equivariant'],
+        'stages': [
+            {'src': 'C16.cpp', 'configs': ['SO2d', 'SE2d', 'SO3d', 'SE3d', 'SE_2_3d', 'SGal3d', 'R3d', 'SE3f', 'B_SE3_SO2_R3_d'],
+             'cases': {'quick': 700, 'thorough': 40000}, 'shards': {'quick': 1, 'thorough': 2},
+             'case_scale': {'SGal3d': 0.5, 'B_SE3_SO2_R3_d': 0.5}},
+        ],
+    },
     'C17': {
         'rule': 'cells (N, degree, k, closed): single generated cells incl. the invalid-argument classes, and sweep cases that enumerate the whole box 3<=N<=16, 2<=d<=N, 1<=k<=4, open/closed (952 cells) on a generated trajectory (consecutive relative rotation < pi); non-trivial: >= 2 windows and degree >= 3',
         'assumptions': ASSUME_ORACLE + ['AddressSanitizer build over an exact-size heap trajectory: reading anything but its elements is reported; ASAN hard_rss_limit_mb=4000 and the per-shard timeout bound non-termination (a process killed by either is reported as a violation of C17, whose statement includes termination)'],
